@@ -62,6 +62,33 @@ def written_params(fn):
     return w
 
 
+def input_counter(f, L, iv):
+    """Is `iv` the position of the input visited by loop L over tx.vin?  Accepted spellings:
+    (a) for (T iv = 0; iv < tx.vin.size(); ++iv) with no other write to iv;
+    (b) range-for over tx.vin, iv declared `= 0` before the loop, its only write being one ++iv as the last statement of the body, no `continue`."""
+    writes = []
+    for st, e in all_exprs(f.body):
+        for x in subexprs(e):
+            if (x[0] == "b" and x[1] in ASSIGN_OPS and x[2] == ["local", iv]) or (x[0] == "u" and x[1] in ("++", "--", "post++", "post--", "&") and x[2] == ["local", iv]):
+                writes.append((st, x))
+    is_inc = lambda x: is_expr(x) and x[0] == "u" and x[1] in ("++", "post++") and x[2] == ["local", iv]
+    vin_size = lambda x: is_expr(x) and x[0] in ("mcall", "vcall") and x[1].endswith("::size") and show(x[2]) == "tx.vin"
+    if L.get("k") == "for":
+        init, c = L.get("init"), L.get("c")
+        okc = is_expr(c) and c[0] == "b" and ((c[1] in ("<", "!=") and c[2] == ["local", iv] and vin_size(c[3])) or (c[1] in (">", "!=") and c[3] == ["local", iv] and vin_size(c[2])))
+        return isinstance(init, dict) and init.get("n") == iv and match(["int", 0], strip(init.get("i"))) and okc and is_inc(L.get("inc")) and \
+            len(writes) == 1 and writes[0][1] is L["inc"]
+    if L.get("k") == "foreach":
+        decls = [st for st in stmts(f.body) if st.get("k") == "decl" and st.get("n") == iv]
+        body = L.get("b") or {}
+        items = body.get("s", []) if body.get("k") == "seq" else [body]
+        last = items[-1] if items else None
+        return show(L.get("range")) == "tx.vin" and len(decls) == 1 and match(["int", 0], strip(decls[0].get("i"))) and (decls[0].get("l") or 0) < L.get("l") and \
+            len(writes) == 1 and isinstance(last, dict) and last.get("k") == "expr" and is_inc(last.get("e")) and writes[0][0] is last and \
+            not any(st.get("k") == "continue" for st in stmts(body))
+    return False
+
+
 def check(ctx):
     P = ctx.program(UNITS)
     script_cache(ctx, P)
@@ -149,13 +176,19 @@ def script_cache(ctx, P):
         raise AnalysisBroken("CheckInputScripts: inline script execution is not inside one loop")
     L = runs[0].loops[-1]
     key = loop_range_key(L, subst)
-    iv = L.get("init", {}).get("n") if isinstance(L.get("init"), dict) else None
-    ok = key == "for(0; %s < tx.vin.size())" % iv and not has_break(L.get("b")) and \
-        is_expr(L.get("inc")) and match(["u", lambda o: o in ("++", "post++"), ["local", iv]], L["inc"]) and \
-        not [1 for l, p in uses_of_local(f, iv) if p is not None and ((p[0] == "b" and p[1] in ASSIGN_OPS and p[2] == ["local", iv]) or
-                                                                     (p[0] == "u" and p[1] in ("++", "--", "post++", "post--", "&") and p is not L["inc"]))]
-    ctx.ob("CheckInputScripts/loop-complete", "LADDER", "the script loop visits every input index 0 .. tx.vin.size()-1 and has no break", ok,
-           "%s:%s" % (f.file, L.get("l")), {"loop": key})
+    # the input index handed to CScriptCheck identifies the loop counter (both spellings of the loop are accepted)
+    iv = None
+    for s in runs:
+        obj = call_obj(s.expr)
+        if is_expr(obj) and obj[0] == "local":
+            cd = [strip(st["i"]) for st in stmts(L) if st.get("k") == "decl" and st.get("n") == obj[1] and is_expr(st.get("i"))]
+            if len(cd) == 1 and callee(cd[0]) == "CScriptCheck" and len(call_args(cd[0])) >= 4 and call_args(cd[0])[3][0] == "local":
+                iv = call_args(cd[0])[3][1]
+    if iv is None:
+        raise AnalysisBroken("CheckInputScripts: the input index passed to CScriptCheck is not a local counter (idiom changed)")
+    ok = input_counter(f, L, iv) and not has_break(L.get("b"))
+    ctx.ob("CheckInputScripts/loop-complete", "LADDER", "the script loop visits every input of tx.vin exactly once (index loop 0 .. tx.vin.size()-1, or range-for over "
+           "tx.vin with a counter incremented once per iteration) and has no break", ok, "%s:%s" % (f.file, L.get("l")), {"loop": key, "counter": iv})
     # CScriptCheck construction
     for s in runs:
         obj = call_obj(s.expr)
@@ -176,13 +209,7 @@ def script_cache(ctx, P):
     parts = []
     for e in ex:
         if L in e.loops and e.kind == "ret" and not is_true_ret(e):
-            gs, inside = [], False
-            for g in e.guards:
-                if g.kind == "loop" and g.line == L.get("l"):
-                    inside = True
-                    continue
-                if inside:
-                    gs.append(g)
+            gs = [g for g in e.guards if g.line is not None and g.line >= L.get("l") and g.kind != "loop"]
             parts.append(F.mk_and([g.formula(subst) for g in gs]))
             ok = invalid_call(e.value) is not None
             ctx.ob("CheckInputScripts/loop-reject-kind@L%s" % e.line, "LADDER", "an exit inside the script loop is a state.Invalid(...) rejection", ok,
